@@ -3,7 +3,8 @@ package main
 // EvictionState, sequentially: every slot type the constraint EvictionStateSlotType admits (8/16/32/64-bit signed and
 // unsigned integers, a named type, uintptr, floats with integral slots), slot jumps of every magnitude (1, 2, 100, 4095,
 // 4096, 4097, 65535, 65536, 65537, 10^5, 2^20, 2^20+1, and up to the maximum of the 8- and 16-bit types), events
-// requested at, right below and right above the evicted range.  Slots travel as uint64 in the op lines.
+// requested at, right below and right above the evicted range.  Slots travel as int64 in the op lines
+// (negative for the signed and the float types; the types f32q / f64q count quarters: slot k stands for k/4).
 
 import (
 	"fmt"
@@ -18,38 +19,57 @@ import (
 )
 
 type evAPI interface {
-	event(slot uint64) reactive.Event
-	evict(slot uint64)
-	last() uint64
+	event(slot int64) reactive.Event
+	evict(slot int64)
+	last() int64
 }
 
+// evTyped drives an EvictionState[T].  unit = 0: the op line's slot k is the slot T(k); unit = 0.25 (float types only):
+// k counts quarters, the slot is T(k/4) — slots between two integers.
 type evTyped[T reactive.EvictionStateSlotType] struct {
-	s reactive.EvictionState[T]
+	s    reactive.EvictionState[T]
+	unit float64
 }
 
-func (e evTyped[T]) event(slot uint64) reactive.Event { return e.s.EvictionEvent(T(slot)) }
-func (e evTyped[T]) evict(slot uint64)               { e.s.Evict(T(slot)) }
-func (e evTyped[T]) last() uint64                    { return uint64(e.s.LastEvictedSlot()) }
+func (e evTyped[T]) conv(slot int64) T {
+	if e.unit == 0 {
+		return T(slot)
+	}
 
-func mkEV[T reactive.EvictionStateSlotType]() evAPI {
-	return evTyped[T]{s: reactive.NewEvictionState[T]()}
+	return T(float64(slot) * e.unit)
+}
+
+func (e evTyped[T]) event(slot int64) reactive.Event { return e.s.EvictionEvent(e.conv(slot)) }
+func (e evTyped[T]) evict(slot int64)               { e.s.Evict(e.conv(slot)) }
+func (e evTyped[T]) last() int64 {
+	if e.unit == 0 {
+		return int64(e.s.LastEvictedSlot())
+	}
+
+	return int64(float64(e.s.LastEvictedSlot()) / e.unit)
+}
+
+func mkEV[T reactive.EvictionStateSlotType](unit float64) func() evAPI {
+	return func() evAPI { return evTyped[T]{s: reactive.NewEvictionState[T](), unit: unit} }
 }
 
 // slotIndex is a named slot type as applications declare them (iota.go: `type SlotIndex uint32`).
 type slotIndex uint32
 
 type evType struct {
-	name string
-	mk   func() evAPI
-	max  uint64 // the largest slot of the type (floats: the largest one up to which every integer is a value of the type)
+	name     string
+	mk       func() evAPI
+	min, max int64 // range of the slots in the op lines (64-bit unsigned types: up to MaxInt64, the harness carries int64;
+	// floats: the range in which every integer / every quarter is a value of the type)
 }
 
 var evTypes = []evType{
-	{"int", mkEV[int], math.MaxInt64}, {"i8", mkEV[int8], math.MaxInt8}, {"i16", mkEV[int16], math.MaxInt16},
-	{"i32", mkEV[int32], math.MaxInt32}, {"i64", mkEV[int64], math.MaxInt64}, {"uint", mkEV[uint], math.MaxUint64},
-	{"u8", mkEV[uint8], math.MaxUint8}, {"u16", mkEV[uint16], math.MaxUint16}, {"u32", mkEV[uint32], math.MaxUint32},
-	{"u64", mkEV[uint64], math.MaxUint64}, {"uintptr", mkEV[uintptr], math.MaxUint64}, {"slot32", mkEV[slotIndex], math.MaxUint32},
-	{"f32", mkEV[float32], 1 << 24}, {"f64", mkEV[float64], 1 << 53},
+	{"int", mkEV[int](0), math.MinInt64, math.MaxInt64}, {"i8", mkEV[int8](0), math.MinInt8, math.MaxInt8}, {"i16", mkEV[int16](0), math.MinInt16, math.MaxInt16},
+	{"i32", mkEV[int32](0), math.MinInt32, math.MaxInt32}, {"i64", mkEV[int64](0), math.MinInt64, math.MaxInt64}, {"uint", mkEV[uint](0), 0, math.MaxInt64},
+	{"u8", mkEV[uint8](0), 0, math.MaxUint8}, {"u16", mkEV[uint16](0), 0, math.MaxUint16}, {"u32", mkEV[uint32](0), 0, math.MaxUint32},
+	{"u64", mkEV[uint64](0), 0, math.MaxInt64}, {"uintptr", mkEV[uintptr](0), 0, math.MaxInt64}, {"slot32", mkEV[slotIndex](0), 0, math.MaxUint32},
+	{"f32", mkEV[float32](0), -(1 << 24), 1 << 24}, {"f64", mkEV[float64](0), -(1 << 53), 1 << 53},
+	{"f32q", mkEV[float32](0.25), -(1 << 24), 1 << 24}, {"f64q", mkEV[float64](0.25), -(1 << 53), 1 << 53},
 }
 
 func evTypeOf(name string) *evType {
@@ -65,9 +85,9 @@ func evTypeOf(name string) *evType {
 type evWorld struct {
 	ty      *evType
 	state   evAPI
-	held    map[uint64]reactive.Event
+	held    map[int64]reactive.Event
 	evicted bool
-	last    uint64
+	last    int64
 }
 
 func newEVWorld(ty string) *evWorld {
@@ -76,17 +96,43 @@ func newEVWorld(ty string) *evWorld {
 		return &evWorld{}
 	}
 
-	return &evWorld{ty: t, state: t.mk(), held: map[uint64]reactive.Event{}}
+	return &evWorld{ty: t, state: t.mk(), held: map[int64]reactive.Event{}}
 }
 
-func parseU64(s string) (uint64, bool) {
-	n, err := strconv.ParseUint(s, 10, 64)
+func parseI64(s string) (int64, bool) {
+	n, err := strconv.ParseInt(s, 10, 64)
 
 	return n, err == nil
 }
 
-func (w *evWorld) sig(trigger string) map[string]string {
-	return map[string]string{"construct": "EvictionState", "trigger": trigger, "mode": "sequential"}
+// satAdd is a + b clipped to the int64 range.
+func satAdd(a, b int64) int64 {
+	c := a + b
+	if b > 0 && c < a {
+		return math.MaxInt64
+	}
+	if b < 0 && c > a {
+		return math.MinInt64
+	}
+
+	return c
+}
+
+// sig: oracle failures whose history involves a slot below 0 or a float slot between two integers carry that in the
+// trigger (they are the two cases the probing loop of the unrepaired evict could not reach).
+func (w *evWorld) sig(trigger string, slots ...int64) map[string]string {
+	for _, s := range slots {
+		if s < 0 {
+			trigger += "-negative-slot"
+
+			break
+		}
+	}
+	if strings.HasSuffix(w.ty.name, "q") {
+		trigger += "-fractional-slot"
+	}
+
+	return map[string]string{"construct": "EvictionState", "api": "Evict", "trigger": trigger, "mode": "sequential"}
 }
 
 func (w *evWorld) exec(r failer, f []string) string {
@@ -98,8 +144,8 @@ func (w *evWorld) exec(r failer, f []string) string {
 	case "new":
 		return "ok"
 	case "event":
-		slot, ok := parseU64(f[1])
-		if !ok || slot > w.ty.max {
+		slot, ok := parseI64(f[1])
+		if !ok || slot < w.ty.min || slot > w.ty.max {
 			return "bad-op"
 		}
 		ev := w.state.event(slot)
@@ -109,12 +155,12 @@ func (w *evWorld) exec(r failer, f []string) string {
 			if w.evicted && slot <= w.last {
 				break
 			}
-			r.Fail("eviction", fmt.Sprintf("EvictionEvent(%d) is already triggered although the last evicted slot is %d (evicted=%v, slot type %s)", slot, w.last, w.evicted, w.ty.name), w.sig("event"))
+			r.Fail("eviction", fmt.Sprintf("EvictionEvent(%d) is already triggered although the last evicted slot is %d (evicted=%v, slot type %s)", slot, w.last, w.evicted, w.ty.name), w.sig("event", slot))
 		case !ok:
 			w.held[slot] = ev
 			ans = "held new"
 			if w.evicted && slot <= w.last {
-				r.Fail("eviction", fmt.Sprintf("EvictionEvent(%d) handed out a fresh untriggered event although the last evicted slot is %d (slot type %s)", slot, w.last, w.ty.name), w.sig("event-after-evict"))
+				r.Fail("eviction", fmt.Sprintf("EvictionEvent(%d) handed out a fresh untriggered event although the last evicted slot is %d (slot type %s)", slot, w.last, w.ty.name), w.sig("event-after-evict", slot))
 			}
 		case prev == ev:
 			ans = "held same"
@@ -122,11 +168,11 @@ func (w *evWorld) exec(r failer, f []string) string {
 			ans = "held other"
 		}
 	case "evict":
-		slot, ok := parseU64(f[1])
-		if !ok || slot > w.ty.max {
+		slot, ok := parseI64(f[1])
+		if !ok || slot < w.ty.min || slot > w.ty.max {
 			return "bad-op"
 		}
-		before := map[uint64]bool{}
+		before := map[int64]bool{}
 		for s, ev := range w.held {
 			before[s] = ev.WasTriggered()
 		}
@@ -135,7 +181,7 @@ func (w *evWorld) exec(r failer, f []string) string {
 		if !w.evicted || slot > w.last {
 			w.evicted, w.last = true, slot
 		}
-		var fired []uint64
+		var fired []int64
 		for s, ev := range w.held {
 			if ev.WasTriggered() && !before[s] {
 				fired = append(fired, s)
@@ -144,7 +190,7 @@ func (w *evWorld) exec(r failer, f []string) string {
 		sort.Slice(fired, func(i, j int) bool { return fired[i] < fired[j] })
 		fs := make([]string, len(fired))
 		for i, s := range fired {
-			fs[i] = strconv.FormatUint(s, 10)
+			fs[i] = strconv.FormatInt(s, 10)
 		}
 		got := w.state.last()
 		ans = fmt.Sprintf("[%s] last=%d", strings.Join(fs, " "), got)
@@ -152,20 +198,27 @@ func (w *evWorld) exec(r failer, f []string) string {
 		// below it (the ends of the evicted range, its middle, the distances at which an implementation may switch its
 		// strategy) is answered with a triggered event
 		if got != w.last {
-			r.Fail("eviction", fmt.Sprintf("after Evict(%d) LastEvictedSlot() is %d but the highest evicted slot is %d (previously %d, evicted before=%v, slot type %s)", slot, got, w.last, prevLast, hadLast, w.ty.name), w.sig("evict-last"))
+			r.Fail("eviction", fmt.Sprintf("after Evict(%d) LastEvictedSlot() is %d but the highest evicted slot is %d (previously %d, evicted before=%v, slot type %s)", slot, got, w.last, prevLast, hadLast, w.ty.name), w.sig("evict-last", slot))
 		}
-		probes := []uint64{w.last, 0, w.last / 2}
-		for _, d := range []uint64{1, 2, 4095, 4096, 4097, 65535, 65536} {
-			if d <= w.last {
-				probes = append(probes, w.last-d)
+		probes := []int64{w.last, w.last / 2}
+		if w.last >= 0 {
+			probes = append(probes, 0)
+		}
+		for _, d := range []int64{1, 2, 3, 4095, 4096, 4097, 65535, 65536} {
+			if x := satAdd(w.last, -d); x >= w.ty.min && x < w.last {
+				probes = append(probes, x)
 			}
 		}
+		probes = append(probes, w.ty.min)
 		if hadLast && prevLast < w.last {
 			probes = append(probes, prevLast, prevLast+1)
 		}
 		for _, x := range probes {
+			if x > w.last || x < w.ty.min {
+				continue
+			}
 			if ev := w.state.event(x); !ev.WasTriggered() {
-				r.Fail("eviction", fmt.Sprintf("after Evict(%d) (previous last evicted slot %d, evicted before=%v) EvictionEvent(%d) is not triggered although %d <= %d (slot type %s)", slot, prevLast, hadLast, x, x, w.last, w.ty.name), w.sig("evict-probe"))
+				r.Fail("eviction", fmt.Sprintf("after Evict(%d) (previous last evicted slot %d, evicted before=%v) EvictionEvent(%d) is not triggered although %d <= %d (slot type %s)", slot, prevLast, hadLast, x, x, w.last, w.ty.name), w.sig("evict-probe", slot, x))
 
 				break
 			}
@@ -175,7 +228,7 @@ func (w *evWorld) exec(r failer, f []string) string {
 	}
 	for s, ev := range w.held {
 		if want := w.evicted && s <= w.last; ev.WasTriggered() != want {
-			r.Fail("eviction", fmt.Sprintf("after %q the event of slot %d has triggered=%v but the last evicted slot is %d (evicted=%v, slot type %s)", strings.Join(f, " "), s, ev.WasTriggered(), w.last, w.evicted, w.ty.name), w.sig(f[0]))
+			r.Fail("eviction", fmt.Sprintf("after %q the event of slot %d has triggered=%v but the last evicted slot is %d (evicted=%v, slot type %s)", strings.Join(f, " "), s, ev.WasTriggered(), w.last, w.evicted, w.ty.name), w.sig(f[0], s, w.last))
 
 			break
 		}
@@ -186,120 +239,140 @@ func (w *evWorld) exec(r failer, f []string) string {
 
 // evJumps are the distances an Evict may jump over: every magnitude around the sizes at which an implementation could
 // change its strategy.
-var evJumpsMedium = []uint64{100, 255, 256, 1000, 4094, 4095, 4096, 4097, 5000, 8192}
-var evJumpsLarge = []uint64{65535, 65536, 65537, 100000, 1 << 17, 1<<20 - 1, 1 << 20, 1<<20 + 1}
+var evJumpsMedium = []int64{100, 255, 256, 1000, 4094, 4095, 4096, 4097, 5000, 8192}
+var evJumpsLarge = []int64{65535, 65536, 65537, 100000, 1 << 17, 1<<20 - 1, 1 << 20, 1<<20 + 1}
+var evJumpsHuge = []int64{1 << 24, 1 << 31, 1<<32 + 1, 1 << 40, 1 << 53, 1 << 62}
 
+// genEV: the history starts somewhere in the slot type's range — at 0, below 0 for the signed and the float types, at
+// the bottom of the type — and moves upwards.  budget bounds the total length of the evicted ranges while the
+// implementation probes slot by slot (0 = unbounded: evict collects the registered events, its cost does not depend on
+// the range).
 func genEV(rng *hx.Rng, n int) []string {
 	ty := &evTypes[0]
-	if !rng.Chance(2, 5) {
+	if !rng.Chance(1, 3) {
 		ty = &evTypes[rng.Intn(len(evTypes))]
 	}
 	ops := []string{"ev new " + ty.name}
 	if ty.name == "int" && rng.Bool() {
 		ops[0] = "ev new"
 	}
-	class := rng.Intn(8) // 0-3 small steps only, 4-6 medium jumps too, 7 large jumps too
-	var last uint64
+	class := rng.Intn(8) // 0-3 small steps only, 4-6 medium jumps too, 7 large and huge jumps too
+	// frontier: the last evicted slot, before the first eviction the slot the history starts around
+	frontier := int64(0)
+	if ty.min < 0 && rng.Chance(2, 3) {
+		frontier = hx.Pick(rng, []int64{-1, -2, -3, -5, -100, -129, -4097, -65537, ty.min, ty.min + 2, ty.min / 2})
+		if frontier < ty.min {
+			frontier = ty.min
+		}
+	}
 	evicted := false
-	budget := uint64(3 << 20) // slots probed by the implementation's loop (and by the model's) per case
+	budget := evRangeBudget
 	large := 0
-	event := func(s uint64) {
-		if s <= ty.max {
+	event := func(s int64) {
+		if s >= ty.min && s <= ty.max {
 			ops = append(ops, fmt.Sprintf("ev event %d", s))
 		}
 	}
 	for len(ops) < n {
 		if rng.Chance(1, 2) {
-			// an event somewhere: near the last evicted slot, below it, far above it, at the top of the type
+			// an event somewhere: near the frontier (both sides), below it, far above it, at the ends of the type
 			switch x := rng.Intn(20); {
 			case x < 12:
-				event(last + uint64(rng.Range(0, 4)))
+				event(satAdd(frontier, int64(rng.Range(-1, 5))))
 			case x < 15:
-				if last > 0 {
-					event(rng.U64() % (last + 1))
-				}
+				event(satAdd(frontier, -int64(rng.Intn(300))))
 			case x < 17:
-				event(last + hx.Pick(rng, evJumpsMedium))
+				event(satAdd(frontier, hx.Pick(rng, evJumpsMedium)))
 			case x < 18:
-				event(ty.max - uint64(rng.Intn(3)))
+				event(ty.max - int64(rng.Intn(3)))
+			case x < 19:
+				event(ty.min + int64(rng.Intn(3)))
 			default:
-				event(last + hx.Pick(rng, evJumpsLarge))
+				event(satAdd(frontier, hx.Pick(rng, evJumpsLarge)))
 			}
 
 			continue
 		}
-		start := uint64(0)
-		if evicted {
-			start = last + 1
-		}
-		var target uint64
+		var target int64
 		switch x := rng.Intn(20); {
 		case x < 3 && evicted: // at or below the last evicted slot: nothing happens
-			target = last - uint64(rng.Intn(3))
-			if target > last {
-				target = 0
-			}
+			target = satAdd(frontier, -int64(rng.Intn(3)))
 		case class >= 4 && x < 8:
-			target = last + hx.Pick(rng, evJumpsMedium)
+			target = satAdd(frontier, hx.Pick(rng, evJumpsMedium))
 		case class == 7 && x < 12 && large < 2:
-			target = last + hx.Pick(rng, evJumpsLarge)
+			target = satAdd(frontier, hx.Pick(rng, evJumpsLarge))
+			if budget == 0 && rng.Bool() {
+				target = satAdd(frontier, hx.Pick(rng, evJumpsHuge))
+			}
 			large++
-		case ty.max <= math.MaxUint16 && x < 14: // the end of a small slot type
-			target = ty.max - uint64(rng.Intn(2))
+		case (ty.max <= math.MaxUint16 || budget == 0 && class == 7) && x < 14: // the top of the slot type
+			target = ty.max - int64(rng.Intn(2))
 		default:
-			target = last + uint64(rng.Range(1, 3))
-			if !evicted && rng.Bool() {
-				target = uint64(rng.Intn(2))
+			target = satAdd(frontier, int64(rng.Range(1, 3)))
+			if !evicted {
+				target = satAdd(frontier, int64(rng.Range(-1, 1)))
 			}
 		}
 		if target > ty.max {
 			target = ty.max
 		}
-		if target >= start {
-			if target-start+1 > budget {
-				continue
+		if target < ty.min {
+			target = ty.min
+		}
+		if !evicted || target > frontier {
+			if budget > 0 {
+				// the unrepaired implementation probes from 0 (first eviction) or from the last evicted slot
+				from := frontier
+				if !evicted {
+					from = 0
+				}
+				if span := target - from; span > 0 {
+					if span > budget {
+						continue
+					}
+					budget -= span
+				}
 			}
-			budget -= target - start + 1
 			// events inside and around the range that is about to be evicted
 			for k := rng.Intn(4); k > 0; k-- {
 				switch rng.Intn(6) {
 				case 0:
 					event(target)
 				case 1:
-					event(target + 1)
+					event(satAdd(target, 1))
 				case 2:
-					event(start)
+					event(satAdd(frontier, 1))
 				case 3:
-					event(start + (target-start)/2)
+					event(frontier/2 + target/2)
 				case 4:
-					if target > 0 {
-						event(target - 1)
-					}
+					event(satAdd(target, -1))
 				default:
-					event(start + rng.U64()%(target-start+1))
+					event(satAdd(target, -int64(rng.Intn(40))))
 				}
 			}
 		}
 		ops = append(ops, fmt.Sprintf("ev evict %d", target))
-		if !evicted || target > last {
-			evicted, last = true, target
+		if !evicted || target > frontier {
+			evicted, frontier = true, target
 		}
 		// requests for evicted slots right after the eviction
 		for k := rng.Intn(3); k > 0; k-- {
 			switch rng.Intn(4) {
 			case 0:
-				event(last)
+				event(frontier)
 			case 1:
-				event(rng.U64() % (last + 1))
+				event(satAdd(frontier, -int64(rng.Intn(5000))))
 			case 2:
-				if last >= 4096 {
-					event(last - 4096)
-				}
+				event(satAdd(frontier, -4096))
 			default:
-				event(0)
+				event(ty.min)
 			}
 		}
 	}
 
 	return ops
 }
+
+// evRangeBudget: see genEV.  0 since 1f64f76 (evict collects the registered events); it was 3<<20 while evict probed slot
+// by slot.  An implementation that goes back to probing does not return from the huge jumps: progress watchdog.
+var evRangeBudget = int64(0)
